@@ -24,7 +24,9 @@ def gen_case(rng, tier):
     cfg = P.gen_cfg(rng)
     stmts = P.gen_program(rng, cfg, n_stmts=rng.randint(5, 18), allow_bad=0.02,
                           weights={'label': 5, 'align': 2.5, 'zerountil': 2, 'org': 1, 'data': 5, 'instr': 5, 'const': 2,
-                                   'fill': 1.5, 'memzone': 0.6, 'createZone': 0.3, 'mute': 0.8})
+                                   'fill': 1.5, 'memzone': 0.6, 'createZone': 0.3, 'mute': 0.8, 'macro': 2})
+    if rng.random() < 0.3:
+        stmts = P.add_dead_blocks(rng, cfg, stmts, n=rng.randint(1, 2))
     gs = 0
     for z in cfg['preZones']:
         if z[0] == 'GLOBAL':
